@@ -455,7 +455,7 @@ func runC11Prog(p c11Prog, fireAt int, useCtx, track bool, limit string, recordA
 	}()
 	select {
 	case <-done:
-	case <-time.After(60 * time.Second):
+	case <-hangAfter(60 * time.Second):
 		atomic.AddInt32(&c11Timeouts, 1)
 		res.res = "timeout"
 	}
@@ -776,7 +776,7 @@ func execC11Script(ops []Op) []string {
 	}()
 	select {
 	case <-done:
-	case <-time.After(60 * time.Second):
+	case <-hangAfter(60 * time.Second):
 		return []string{"X timeout => " + line}
 	}
 	if strings.HasPrefix(res, "gopanic") {
